@@ -252,6 +252,10 @@ class G:
             simple = [('u8', 'y'), ('u32', 'u'), ('u64', 't'), ('i32', 'i'), ('bool', 'b'), ('String', 's'), ('f64', 'd'), ('Vec<String>', 'as'), ('Vec<u8>', 'ay')]
             fs = [(r.choice(simple), r.random() < 0.4) for _ in range(r.randint(1, 4))]
             rename = r.choice([None, 'PascalCase', 'kebab-case'])
+            if fixed_fields:
+                # (coverage by construction: a given renaming mode with every identifier style)
+                rename = fixed_fields[0]
+                fs = [(r.choice(simple), k % 2 == 1) for k in range(5)]
             value = r.random() < 0.5
             o.append('#[derive(Debug, Clone, PartialEq, SerializeDict, DeserializeDict, Type' + (', Value, OwnedValue' if value else '') + ')]')
             o.append('#[zvariant(signature = "dict"' + (f', rename_all = "{rename}"' if rename else '') + ')]')
@@ -259,6 +263,8 @@ class G:
             # field identifiers in several styles (the key is the identifier as written unless
             # rename_all says otherwise; the renaming rules are the documented serde-like ones)
             idents = [r.choice([f'field_{k}', f'field_{k}', f'Field{k}', f'fieldName{k}', f'LoopStatus{k}', f'x{k}']) for k in range(len(fs))]
+            if fixed_fields:
+                idents = ['field_0', 'Field1', 'fieldName2', 'LoopStatus3', 'x4']
             for k, ((t, s), opt) in enumerate(fs):
                 o.append(f'    pub {idents[k]}: ' + (f'Option<{t}>' if opt else t) + ',')
             o.append('}')
@@ -309,6 +315,9 @@ class G:
             i += 1
         # ... and so does every std type with a built-in impl (as array element, dictionary value
         # and inside a newtype variant)
+        for mode in (None, 'PascalCase', 'kebab-case'):
+            self.gen_type(i, kind='dict-struct', fixed_fields=[mode])
+            i += 1
         stds = STD[:]
         r.shuffle(stds)
         for a, b in zip(stds[0::2], stds[1::2]):
